@@ -166,6 +166,7 @@ def case_strategy():
     return st.fixed_dictionaries({
         "cfg": cfg_strategy(),
         "apdus": st.lists(apdu_strategy(), min_size=1, max_size=6),
+        "fill": st.sampled_from([None, None, "const", "period"]),
         "script": st.lists(st.tuples(st.integers(0, 120),
                                      st.sampled_from(["LC", "LR", "CR"])),
                            max_size=8)})
@@ -192,7 +193,8 @@ def perblock_case(draw):
     kinds = [None, "LC", "LR", "CR"] if not dense else ["LC", "LR", "CR",
                                                          "LC", None]
     plan = draw(st.lists(st.sampled_from(kinds), min_size=4, max_size=60))
-    return {"cfg": cfg, "apdus": apdus, "script": [], "plan": plan}
+    return {"cfg": cfg, "apdus": apdus, "script": [], "plan": plan,
+            "fill": draw(st.sampled_from([None, None, "const", "period"]))}
 
 
 def run(case, ctx):
@@ -244,8 +246,19 @@ def converse(case, ctx, app, tag_sim, tag, dev, fwi, fault_of):
     ctx.label("%s budget=%d" % (type(tag).__name__, n_retry))
     outcomes = []
     for idx, (clen, rlen) in enumerate(case["apdus"]):
-        cmd = bytes([0x00, 0xEE, rlen >> 8, rlen & 0xFF]) + bytes(
-            (idx * 31 + i) & 0xFF for i in range(clen - 4))
+        fill = case.get("fill")
+        if fill == "const":
+            # the same octet throughout (what format(wipe=x) sends)
+            body = bytes([(idx * 31) & 0xFF]) * (clen - 4)
+        elif fill == "period":
+            # content that repeats with the block size: all full blocks of a
+            # chain behind the first carry the same octets
+            m = max(1, FSC[min(case["cfg"]["fsci"], 8)] - 3)
+            body = bytes((idx * 31 + (i + 4) % m) & 0xFF
+                         for i in range(clen - 4))
+        else:
+            body = bytes((idx * 31 + i) & 0xFF for i in range(clen - 4))
+        cmd = bytes([0x00, 0xEE, rlen >> 8, rlen & 0xFF]) + body
         before = app.serial
         x0 = len(dev.xlog)
         after_error = any(o != "ok" for o in outcomes)
@@ -470,6 +483,10 @@ def enum_shapes(tier, seed):
                 for script in scripts:
                     yield {"cfg": cfg, "apdus": apdus, "script": script,
                            "nt": "chained"}
+                for fill in ("const", "period"):
+                    yield {"cfg": cfg, "apdus": apdus + [[3 * m, 1],
+                                                         [4 * m, 0]],
+                           "script": [], "nt": "chained", "fill": fill}
 
 
 # ------------------------------------------------ real drivers, RF-level faults
